@@ -64,14 +64,17 @@ def run(chk, replay=None):
     rp = vcheck.Replayer(binary, seed=chk.seed, jobs=1, chunk=1, timeout_per_line=300)
     K, N = (16, 400) if chk.thorough else (8, 60)
     rounds = 4 if chk.thorough else 1
-    classes = [('same_second', K, N), ('restart', 6, 30), ('shared_file', 4, 30), ('fork', 4, 30), ('threads', 3, 30)] + ([('staggered', 3, 30)] if chk.thorough else [])
+    classes = [('same_second', K, N), ('restart', 6, 30), ('shared_file', 4, 30), ('fork', 4, 30), ('threads', 3, 30), ('long_run', 1, 80)] + ([('staggered', 3, 30)] if chk.thorough else [])
+    RAW = 40000 if chk.thorough else 9000      # direct createId() calls of the long-lived process (spread between its entity creations)
     tdir = '%s/work/ids-%d' % (vcheck.BUILD, os.getpid())
     os.makedirs(tdir, exist_ok=True)
     try:
         for rnd in range(rounds):
             for (sched, k, n) in classes:
                 trace = '%s/%s-%d.ndjson' % (tdir, sched, rnd)
-                rec = {'m': 'ids', 'schedule': sched, 'procs': k, 'ids': n, 'trace': trace}
+                rec = {'m': 'ids', 'schedule': sched, 'procs': k, 'ids': n, 'trace': trace, 'raw': RAW}
+                if sched == 'long_run' and rnd > 0:
+                    continue
                 v = rp.single(rec)
                 if v.get('v') != 'ok':
                     raise vcheck.MachineryError('id recorder failed: %r' % v)
@@ -100,7 +103,7 @@ def run(chk, replay=None):
     chk.rule = ('TLC: all interleavings of 3 contexts (start / fork / thread / create / exit), 4 ids, 4 generators: collisions found for the designs "time" (same second), '
                 '"entropy_once" (after fork) and "per_thread" (threads of one process), none for per-call entropy; '
                 'recorded executions: one per schedule class and round (same second via barrier at a second boundary, restart within a second, '
-                'sequential sessions on one file, children forked from a process that already issued ids, threads of one process one after the other%s), %d writers x %d entity creations of every kind; evaluations = ids issued, distinct = traces') % (
+                'sequential sessions on one file, children forked from a process that already issued ids, threads of one process one after the other, one long-lived process drawing some 10^4 ids%s), %d writers x %d entity creations of every kind; evaluations = ids issued, distinct = traces') % (
                 ', different seconds' if chk.thorough else '', K, N)
     chk.assumptions += ['uniqueness of entropy seeds is an assumption of the model; the verdict on the code comes from the validated traces of real processes',
                         'id stability within a session and across reopen is additionally part of every NixFile replay (ids are bound at creation)',
